@@ -101,6 +101,11 @@ def exempt_construct(b, c, nm, ga):
         d = b.single_def(b.root(p)[0]) if p is not None else None
         if d and d[0] == "call" and (d[2].callee or "") == "std::fs::canonicalize":
             return "canonicalize(path) falls back to the path itself: the file stays in the set under its own spelling and a failure to read it is reported when it is read (P0026)"
+    if nm in ("ok", "unwrap_or", "unwrap_or_else", "unwrap_or_default", "map_or", "map_or_else") and c.args:
+        p = op_place(c.args[0])
+        d = b.single_def(b.root(p)[0]) if p is not None else None
+        if d and d[0] == "call" and (d[2].callee or "") == "url::Url::parse":
+            return "a URL built from a constant prefix (the link to the documentation of a problem code): the problem is reported with or without the link, nothing about the analysed program is lost"
     return None
 
 
